@@ -33,7 +33,7 @@ REQUIRED = ['abs_condition_exact', 'rel_condition_exact', 'abs_threshold_exact',
             'openlist_no_pass_over', 'openlist_overflow_votes_best', 'openlist_overflow_list_best', 'openlist_overflow_list_order',
             'break_by_list_only_tied', 'list_tiebreak_only_tied', 'break_by_list_nbest', 'sortByIndex_spec',
             'list_tiebreak_plurality_tie', 'list_tiebreak_no_tie', 'list_tiebreak_plurality_fits',
-            'list_tiebreak_quota_tie', 'openlist_error_iff', 'sel_eval_fuel_mono']
+            'list_tiebreak_quota_tie', 'openlist_error_iff', 'sel_eval_fuel_mono', 'openlist_zero_seats', 'openlist_at_pos']
 NAME_MODES = ['str', 'int0', 'empty0', 'person', 'tuple']
 REQUIRED_COUNTERS = ['on_threshold_eq', 'on_threshold_noeq', 'decimal_threshold', 'int_threshold', 'fraction_threshold',
                      'alternative', 'bracketer', 'bracketer_property', 'openlist_jump', 'openlist_fill',
@@ -54,7 +54,15 @@ REQUIRED_COUNTERS = ['on_threshold_eq', 'on_threshold_noeq', 'decimal_threshold'
                      'more_seats_than_list', 'called_twice', 'other_config_first', 'after_exception',
                      'property_name_nondefault', 'prop_via_dict', 'prop_via_instance_attribute', 'prop_via_class_attribute',
                      'prop_via_property', 'prop_via_namedtuple', 'prop_of_coalition', 'prop_of_coalition_instance_attribute',
-                     'prop_missing', 'prop_shadowed_by_properties_dict', 'sens:accept_equal', 'sens:coalition_evaluators',
+                     'prop_missing', 'prop_shadowed_by_properties_dict',
+                     # checklist items 10-12
+                     'multi_on_threshold', 'three_on_threshold', 'level4_places3', 'level4_places3:tiebreak',
+                     'level4_places3:quota_selector', 'level4_places3:break_by_list', 'threshold_out_of_range',
+                     'zero_seats:openlist', 'zero_seats_quota_divides_by_seats', 'zero_seats:tiebreak', 'zero_seats:quota_selector', 'n_equals_list',
+                     'alt_default_prev_gains', 'prev_with_empty_votes', 'result_kept_after_next_call',
+                     'thr:i:eq', 'thr:i:noeq', 'thr:F:eq', 'thr:F:noeq', 'thr:D:eq', 'thr:D:noeq', 'thr:f:eq', 'thr:f:noeq',
+                     'jf:i:eq', 'jf:i:noeq', 'jf:F:eq', 'jf:F:noeq', 'jf:D:eq', 'jf:D:noeq', 'jf:f:eq', 'jf:f:noeq',
+                     'sens:accept_equal', 'sens:coalition_evaluators',
                      'sens:property_evaluators', 'sens:property_default', 'sens:property_name', 'sens:partials',
                      'sens:prev_gain_selector', 'sens:qs_quota_function', 'sens:qs_accept_equal',
                      'sens:qs_on_more_over_quota', 'sens:jump_fraction', 'sens:quota_function', 'sens:quota_fraction',
@@ -436,6 +444,11 @@ def oracle_threshold(votes, t, eq, share, obs):
 def oracle_openlist(case, obs):
     votes = fvotes(case['votes'])
     n, clist = case['n'], case['list']
+    if n == 0:
+        # outside the property's quantifier (1 <= n_seats); where the evaluator answers it must seat nobody
+        if isinstance(obs, dict):
+            return []
+        return [] if obs == [] else [('zero_seats', f'{obs} seated for no seats')]
     total = sum(votes.values())
     thr = open_threshold(case, total)
     eq = case['accept_equal']
@@ -499,6 +512,8 @@ def oracle_openlist(case, obs):
 def expected_tiebreak(votes, n, clist):
     """plurality with list tie-break, or None when a tied candidate is not on the list"""
     order = order_desc(votes)
+    if n == 0:
+        return []
     if len(order) <= n:
         return order
     tau = sorted(votes.values(), reverse=True)[n - 1]
@@ -521,6 +536,8 @@ def oracle(case, obs):
 
 def _oracle(case, obs):
     op = case['op']
+    if isinstance(obs, dict) and str(obs.get('err', '')).startswith('Aliasing'):
+        return [('aliasing', obs['err'])]
     if op in ('abs_threshold', 'rel_threshold'):
         votes = fvotes(case['votes'])
         t = Fraction(case['threshold'])
@@ -770,55 +787,135 @@ def build_quota(case, key='quota'):
     return q
 
 
+class AliasError(Exception):
+    """an input object was changed, the evaluator's own state was changed, or the result is an input object"""
+
+
+_PRIM = (int, float, str, bool, Fraction, Decimal, type(None))
+
+
+def _snap(x):
+    """order-sensitive snapshot of an argument handed to the library (candidates by identity unless primitive)"""
+    def key(c):
+        return ('v', repr(c)) if isinstance(c, _PRIM) else ('id', id(c))
+    if isinstance(x, dict):
+        return ('dict', tuple((key(k), repr(v)) for k, v in x.items()))
+    if isinstance(x, (list, tuple)):
+        return ('list', tuple(_snap(v) if isinstance(v, (frozenset, set)) else key(v) for v in x))
+    if isinstance(x, (set, frozenset)):
+        return ('set', tuple(sorted(map(repr, map(key, x)))))
+    return key(x)
+
+
+def _freeze(x, depth=0):
+    """the evaluator's own state: __dict__ recursively, private attributes included"""
+    import inspect
+    if depth > 8:
+        return ('deep', type(x).__name__)
+    if isinstance(x, _PRIM):
+        return (type(x).__name__, repr(x))
+    if isinstance(x, dict):
+        return ('dict', tuple((_freeze(k, depth + 1), _freeze(v, depth + 1)) for k, v in x.items()))
+    if isinstance(x, (list, tuple)):
+        return (type(x).__name__, tuple(_freeze(v, depth + 1) for v in x))
+    if isinstance(x, (set, frozenset)):
+        return ('set', tuple(sorted(repr(_freeze(v, depth + 1)) for v in x)))
+    if inspect.isfunction(x) or inspect.isbuiltin(x) or inspect.ismethod(x):
+        return ('function', getattr(x, '__qualname__', repr(x)))
+    if hasattr(x, '__dict__') and not isinstance(x, type):
+        return (type(x).__name__, _freeze(vars(x), depth + 1))
+    return ('other', repr(x))
+
+
+def _checked(obj, fn, args):
+    """run fn() (a call into votelib with the argument objects `args`): the arguments and the state of `obj` must be
+    the same afterwards, and the result must not be one of the argument objects"""
+    import votelib.evaluate.threshold as vt
+    before = {k: _snap(v) for k, v in args.items()}
+    state = _freeze(vars(obj)) if obj is not None and hasattr(obj, '__dict__') else None
+    try:
+        res = fn()
+    finally:
+        for k, v in args.items():
+            if _snap(v) != before[k]:
+                raise AliasError(f'argument {k} was changed by the call')
+        if state is not None and _freeze(vars(obj)) != state:
+            raise AliasError('the state of the evaluator object was changed by the call')
+        if vt.AlternativeThresholds.evaluate.__defaults__ != ({},):
+            raise AliasError('the default prev_gains={} of AlternativeThresholds.evaluate was changed')
+    for k, v in args.items():
+        if res is v:
+            raise AliasError(f'the result is the caller\'s {k} object')
+    return res
+
+
 def _evaluator(case):
-    """builds ONE votelib object from the configuration of `case`; the returned function evaluates it on the inputs
-    (votes, n, list, prev, candidate attributes) of any case of the same op and encodes the result"""
+    """builds ONE votelib object from the configuration of `case`; returns (call, enc): call(inp) evaluates it on the
+    inputs (votes, n, list, prev, candidate attributes) of any case of the same op through `_checked` and returns the raw
+    result; enc(inp, raw) encodes it"""
     import votelib.evaluate.core as vcore
     import votelib.evaluate.threshold as vt
     import votelib.evaluate.openlist as vo
     import votelib.evaluate.approval as vapp
     op = case['op']
     obj = NAMES.n
+    enc_ids = lambda inp, raw: [NAMES.i(c) for c in raw]               # noqa
+    enc_sel = lambda inp, raw: enc_selection(raw, NAMES)                 # noqa
     if op in ('abs_threshold', 'rel_threshold'):
         cls = vt.AbsoluteThreshold if op == 'abs_threshold' else vt.RelativeThreshold
         ev = cls(to_py(case['threshold'], case.get('_ttype', 'F')), case['accept_equal'])
-        return lambda inp: [NAMES.i(c) for c in ev.evaluate(py_votes(inp['votes'], inp.get('_types'), obj))]
+
+        def call(inp):
+            votes = py_votes(inp['votes'], inp.get('_types'), obj)
+            return _checked(ev, lambda: ev.evaluate(votes), {'votes': votes})
+        return call, enc_ids
     if op == 'seatless':
         sel = build_sel(case['sel'], case.get('_prop_name', 'minority'))
+        holder = {}
 
-        def run(inp):
+        def call(inp):
             objs = build_cands(inp)
-            back = {id(o): i for i, o in objs.items()}
+            holder['back'] = {id(o): i for i, o in objs.items()}
             votes = py_votes(inp['votes'], inp.get('_types'), lambda i: objs[i])
             prev = py_votes(inp.get('prev') or [], None, lambda i: objs[i])
             prev = {c: (int(v) if v.denominator == 1 else v) for c, v in prev.items()}
-            if isinstance(sel, (vt.AlternativeThresholds, vt.PreviousGainThreshold)):
-                res = sel.evaluate(votes, prev_gains=prev)
-            else:
-                res = sel.evaluate(votes)
-            return [back[id(c)] if id(c) in back else NAMES.i(c) for c in res]
-        return run
+            if isinstance(sel, vt.PreviousGainThreshold) or \
+                    (isinstance(sel, vt.AlternativeThresholds) and not inp.get('_no_prev_kwarg')):
+                return _checked(sel, lambda: sel.evaluate(votes, prev_gains=prev), {'votes': votes, 'prev_gains': prev})
+            return _checked(sel, lambda: sel.evaluate(votes), {'votes': votes})
+
+        def enc(inp, raw):
+            back = holder['back']
+            return [back[id(c)] if id(c) in back else NAMES.i(c) for c in raw]
+        return call, enc
     if op == 'quota_selector':
         ev = vapp.QuotaSelector(build_quota(case), accept_equal=case['accept_equal'], on_more_over_quota=case['on_more'])
-        return lambda inp: enc_selection(ev.evaluate(py_votes(inp['votes'], inp.get('_types'), obj), inp['n']), NAMES)
-    if op == 'openlist':
-        jf = to_py(case['jump_fraction'], case.get('_jftype', 'F')) if case.get('jump_fraction') is not None else None
-        ev = vo.ThresholdOpenList(
-            jump_fraction=jf, quota_function=build_quota(case),
-            quota_fraction=to_py(case['quota_fraction'], case.get('_qftype', 'F')),
-            take_higher=case['take_higher'], accept_equal=case['accept_equal'],
-            list_precedence=case['list_precedence'])
-        return lambda inp: [NAMES.i(c) for c in ev.evaluate(py_votes(inp['votes'], inp.get('_types'), obj), inp['n'],
-                                                            [obj(i) for i in inp['list']])]
-    if op == 'tiebreak':
-        if case['inner'] == 'plurality':
-            inner = vcore.Plurality()
+
+        def call(inp):
+            votes = py_votes(inp['votes'], inp.get('_types'), obj)
+            return _checked(ev, lambda: ev.evaluate(votes, inp['n']), {'votes': votes})
+        return call, enc_sel
+    if op in ('openlist', 'tiebreak'):
+        if op == 'openlist':
+            jf = to_py(case['jump_fraction'], case.get('_jftype', 'F')) if case.get('jump_fraction') is not None else None
+            ev = vo.ThresholdOpenList(
+                jump_fraction=jf, quota_function=build_quota(case),
+                quota_fraction=to_py(case['quota_fraction'], case.get('_qftype', 'F')),
+                take_higher=case['take_higher'], accept_equal=case['accept_equal'],
+                list_precedence=case['list_precedence'])
         else:
-            inner = vapp.QuotaSelector(build_quota(case, 'inner'), accept_equal=case['accept_equal'],
-                                       on_more_over_quota='select')
-        ev = vo.ListOrderTieBreaker(inner)
-        return lambda inp: enc_selection(ev.evaluate(py_votes(inp['votes'], inp.get('_types'), obj), inp['n'],
-                                                     [obj(i) for i in inp['list']]), NAMES)
+            if case['inner'] == 'plurality':
+                inner = vcore.Plurality()
+            else:
+                inner = vapp.QuotaSelector(build_quota(case, 'inner'), accept_equal=case['accept_equal'],
+                                           on_more_over_quota='select')
+            ev = vo.ListOrderTieBreaker(inner)
+
+        def call(inp):
+            votes = py_votes(inp['votes'], inp.get('_types'), obj)
+            clist = [obj(i) for i in inp['list']]
+            return _checked(ev, lambda: ev.evaluate(votes, inp['n'], clist), {'votes': votes, 'candidate_list': clist})
+        return call, (enc_ids if op == 'openlist' else enc_sel)
     if op == 'alt_ranks':
         class Fixed:
             def __init__(self, res):
@@ -826,38 +923,71 @@ def _evaluator(case):
 
             def evaluate(self, votes):
                 return list(self.res)
-        return lambda inp: [NAMES.i(c) for c in
-                            vt.AlternativeThresholds([Fixed([obj(i) for i in r]) for r in inp['results']]).evaluate({})]
+
+        def call(inp):
+            ev = vt.AlternativeThresholds([Fixed([obj(i) for i in r]) for r in inp['results']])
+            votes = {}
+            return _checked(None, lambda: ev.evaluate(votes), {'votes': votes})
+        return call, enc_ids
     if op == 'break_by_list':
-        def run(inp):
+        def call(inp):
             el = [vcore.Tie(obj(i) for i in x['tie']) if isinstance(x, dict) else obj(x) for x in inp['elected']]
-            return [NAMES.i(c) for c in vcore.Tie.break_by_list(el, [obj(i) for i in inp['breaker']])]
-        return run
+            br = [obj(i) for i in inp['breaker']]
+            return _checked(None, lambda: vcore.Tie.break_by_list(el, br), {'elected': el, 'breaker': br})
+        return call, enc_ids
     raise ValueError(op)
 
 
 def impl(case):
     """`_warm_cfg` (configuration keys): a differently configured object of the same class is evaluated first;
     `_warm` (input keys): the SAME object is first evaluated on other inputs (its result or exception is discarded);
-    then the observable is the evaluation on the inputs of the case."""
+    then the observable is the evaluation on the inputs of the case; `_after` (input keys): the same object is evaluated
+    once more afterwards and the result returned for the case must not have changed.  Every call goes through `_checked`
+    (arguments unchanged, evaluator state unchanged, result not an argument object); a breach is reported as the
+    observable {'err': 'Aliasing: ...'}."""
     def run():
-        if case.get('_warm_cfg'):
-            other = dict(case)
-            other.update(case['_warm_cfg'])
-            try:
-                _evaluator(other)(other)
-            except Exception:       # noqa
-                pass
-        ev = _evaluator(case)
-        if case.get('_warm'):
-            w = dict(case)
-            w.update(case['_warm'])
-            try:
-                ev(w)
-            except Exception:       # noqa
-                pass
-        return ev(case)
-    return guarded(run)
+        try:
+            if case.get('_warm_cfg'):
+                other = dict(case)
+                other.update(case['_warm_cfg'])
+                try:
+                    _evaluator(other)[0](other)
+                except AliasError:
+                    raise
+                except Exception:       # noqa
+                    pass
+            call, enc = _evaluator(case)
+            if case.get('_warm'):
+                w = dict(case)
+                w.update(case['_warm'])
+                try:
+                    call(w)
+                except AliasError:
+                    raise
+                except Exception:       # noqa
+                    pass
+            raw = call(case)
+            out = enc(case, raw)
+            if case.get('_after'):
+                kept = _snap(raw)
+                a = dict(case)
+                a.update(case['_after'])
+                try:
+                    call(a)
+                except AliasError:
+                    raise
+                except Exception:       # noqa
+                    pass
+                if _snap(raw) != kept:
+                    raise AliasError('the result returned earlier changed when the object was evaluated again')
+            return out
+        except AliasError as e:
+            return {'err': 'Aliasing: ' + str(e)}
+    out = guarded(run)
+    if out == {'err': 'Timeout'}:
+        # a 5 s alarm on a loaded machine is not an answer of the library: once more with a generous limit
+        out = guarded(run, 60)
+    return out
 
 
 def compare(case, iobs, mobs):
@@ -1566,6 +1696,140 @@ def gen_struct(rng):
     return _demote_inexact(c)
 
 
+NONDIVIDING_QUOTAS = ['droop', 'hagenbach_bischoff', 'hagenbach_bischoff_ceil', 'hagenbach_bischoff_rounded', 'imperiali']
+
+
+def gen_multi(rng):
+    """multiplicity of the rare event: three candidates exactly on the threshold at once; four to six candidates level at
+    the cut contesting three or more places; thresholds outside the usual range"""
+    kind = rng.choice(['three_rel', 'three_abs', 'three_open', 'three_open', 'three_qs', 'level_tb', 'level_tb', 'level_qs',
+                       'level_break', 'range', 'range'])
+    eq = rng.random() < 0.5
+    if kind in ('three_rel', 'three_abs'):
+        p, q = rng.choice([(1, 20), (1, 10), (1, 8), (3, 100), (500001, 10 ** 7)])
+        k = rng.randint(1, 9) * rng.choice([1, 1, 10 ** 6, 2 ** 53])
+        V, on = q * k, p * k
+        others = split_total(rng, V - 3 * on, rng.randint(1, 3))
+        vals = _shuffled(rng, [on, on, on] + others)
+        votes, types = enc_votes(list(enumerate(vals)))
+        if kind == 'three_rel':
+            ts, tt = _pick_threshold_type(rng, Fraction(p, q))
+            return {'op': 'rel_threshold', 'votes': votes, '_types': types, 'threshold': ts, '_ttype': tt,
+                    'accept_equal': eq, '_tags': ['multi']}
+        ts, tt = _pick_threshold_type(rng, Fraction(on))
+        return {'op': 'abs_threshold', 'votes': votes, '_types': types, 'threshold': ts, '_ttype': tt,
+                'accept_equal': eq, '_tags': ['multi']}
+    if kind == 'three_open':
+        for _ in range(30):
+            c = gen_openlist(rng, rich=rng.random() < 0.3)
+            tot = sum(fvotes(c['votes']).values())
+            thr = open_threshold(c, tot)
+            if thr is None or thr.denominator != 1 or thr < 0 or 3 * thr > tot or set(c['_types']) != {'i'}:
+                continue
+            m = max(len(c['list']), 4)
+            ids = list(range(m))
+            vals = _shuffled(rng, [int(thr)] * 3 + split_total(rng, int(tot - 3 * thr), m - 3))
+            c['list'] = _shuffled(rng, ids)
+            c['n'] = rng.randint(1, m)
+            if c['quota'] is not None and not c['quota'].startswith('const:'):
+                continue                    # the quota depends on n: keep only cases whose threshold is n-free
+            c['votes'], c['_types'] = enc_votes(list(zip(_shuffled(rng, ids), vals)))
+            c['_tags'] = ['openlist', 'multi']
+            return c
+        return gen_openlist(rng)
+    if kind == 'three_qs':
+        n = rng.randint(1, 4)
+        qn = rng.choice(['hare', 'droop', 'hagenbach_bischoff'])
+        V = (n + 1) * n * rng.randint(3, 12)
+        q = quota_value(qn, V, n)
+        if q.denominator != 1 or 3 * q > V:
+            q = Fraction(V // 4)
+            qn = 'const:' + num_str(q)
+        vals = _shuffled(rng, [int(q)] * 3 + split_total(rng, int(V - 3 * q), rng.randint(1, 3)))
+        votes, types = enc_votes(list(enumerate(vals)))
+        qn2 = qn if not qn.startswith('const:') else 'hare'
+        if qn.startswith('const:'):
+            # the C09 handler takes a plain number as a constant quota
+            return {'op': 'tiebreak', 'votes': votes, '_types': types, 'n': n, 'list': _shuffled(rng, range(len(vals))),
+                    'inner': qn, '_quota_mode': 'name', 'accept_equal': eq, '_tags': ['tiebreak', 'multi']}
+        return {'op': 'quota_selector', 'votes': votes, '_types': types, 'n': n, 'quota': qn2,
+                '_quota_mode': rng.choice(['name', 'callable']), 'accept_equal': eq,
+                'on_more': rng.choice(['select', 'select', 'error']), '_tags': ['quota_selector', 'multi']}
+    if kind in ('level_tb', 'level_qs'):
+        a, L = rng.randint(0, 2), rng.randint(4, 6)
+        d = rng.randint(3, L - 1)
+        below = rng.randint(0, 2)
+        vals = [7 + i for i in range(a)] + [4] * L + [rng.randint(0, 3) for _ in range(below)]
+        ids = list(range(len(vals)))
+        votes, types = enc_votes(list(zip(_shuffled(rng, ids), vals)))
+        if kind == 'level_tb':
+            inner = rng.choice(['plurality', 'plurality', 'const:4', 'const:1'])
+            return {'op': 'tiebreak', 'votes': votes, '_types': types, 'n': a + d, 'list': _shuffled(rng, ids),
+                    'inner': inner, '_quota_mode': 'name', 'accept_equal': True, '_tags': ['tiebreak', 'multi']}
+        return {'op': 'quota_selector', 'votes': votes, '_types': types, 'n': a + d, 'quota': 'imperiali',
+                '_quota_mode': rng.choice(['name', 'callable']), 'accept_equal': eq, 'on_more': 'select',
+                '_tags': ['quota_selector', 'multi']}
+    if kind == 'level_break':
+        m = rng.randint(5, 8)
+        breaker = _shuffled(rng, range(m))
+        pool = _shuffled(rng, range(m))
+        L = rng.randint(4, min(6, m))
+        tie = sorted(pool[:L])
+        rest = pool[L:]
+        el = rest[:rng.randint(0, len(rest))] + [{'tie': tie}] * rng.randint(3, L - 1)
+        if len(rest) >= 2 and rng.random() < 0.4:
+            el = _shuffled(rng, el + [{'tie': sorted(rest[-2:])}])
+        return {'op': 'break_by_list', 'elected': el, 'breaker': breaker, '_tags': ['break_by_list', 'multi']}
+    # thresholds outside the usual range but inside the documented one
+    sub = rng.choice(['rel', 'abs', 'open'])
+    if sub in ('rel', 'abs'):
+        c = gen_rel_boundary(rng) if sub == 'rel' else gen_abs(rng)
+        t = rng.choice([Fraction(3, 2), Fraction(-1, 10), Fraction(1), Fraction(-1)])
+        c['threshold'], c['_ttype'] = _pick_threshold_type(rng, t)
+        k = max([i for i, _ in c['votes']] + [-1]) + 1
+        c['votes'] = c['votes'] + [[k, '0']]              # a zero-vote candidate: a negative threshold passes it
+        c['_types'] = list(c['_types']) + ['i']
+        c['_tags'] = ['multi']
+        return c
+    c = gen_openlist(rng)
+    if rng.random() < 0.5 or c['quota'] is None:
+        c['jump_fraction'], c['_jftype'] = _pick_threshold_type(rng, rng.choice([Fraction(3, 2), Fraction(-1, 10), Fraction(1)]))
+    else:
+        c['quota_fraction'], c['_qftype'] = _pick_threshold_type(rng, rng.choice([Fraction(5, 2), Fraction(-1, 2), Fraction(100)]))
+    c['_tags'] = ['openlist', 'multi']
+    return c
+
+
+def gen_args(rng):
+    """every evaluate() argument at its edges, on configured objects: n_seats = 0 / = len(list) / > len(list);
+    AlternativeThresholds called without prev_gains; PreviousGainThreshold with an empty votes dict"""
+    kind = rng.choice(['zero_open', 'zero_open', 'zero_tb', 'zero_qs', 'n_len', 'n_more', 'alt_noprev', 'prev_empty_votes'])
+    if kind in ('zero_open', 'n_len', 'n_more'):
+        c = gen_openlist(rng, rich=rng.random() < 0.3)
+        c['n'] = 0 if kind == 'zero_open' else len(c['list']) if kind == 'n_len' else len(c['list']) + rng.randint(1, 3)
+        return c
+    if kind == 'zero_tb':
+        c = gen_tiebreak(rng)
+        if c['inner'] in ('hare', 'hare_rounded'):
+            c['inner'] = 'droop'
+        c['n'] = 0
+        return c
+    if kind == 'zero_qs':
+        c = gen_quota_selector(rng)
+        c['quota'] = rng.choice(NONDIVIDING_QUOTAS)
+        c['n'] = 0
+        return c
+    if kind == 'alt_noprev':
+        c = gen_seatless(rng, force='alt')
+        c['prev'] = []
+        c['_no_prev_kwarg'] = True
+        return c
+    c = gen_seatless(rng, force='prev')
+    if c['sel']['k'] == 'prev' and c['prev']:
+        c['votes'], c['_types'] = [], []
+    return c
+
+
 INPUT_KEYS = {'abs_threshold': ['votes', '_types'], 'rel_threshold': ['votes', '_types'],
               'quota_selector': ['votes', '_types', 'n'], 'openlist': ['votes', '_types', 'n', 'list'],
               'tiebreak': ['votes', '_types', 'n', 'list'],
@@ -1594,6 +1858,9 @@ def gen_twice(rng):
         c['_warm'] = {k: o[k] for k in INPUT_KEYS[c['op']] if k in o}
     if rng.random() < 0.5:
         c['_warm_cfg'] = {k: o[k] for k in CONFIG_KEYS[c['op']] if k in o}
+    if rng.random() < 0.5:
+        o2 = g(rng)
+        c['_after'] = {k: o2[k] for k in INPUT_KEYS[c['op']] if k in o2}
     return _demote_inexact(c)
 
 
@@ -1719,6 +1986,10 @@ def _gen(rng, tier):
         yield gen_struct(rng)
     for _ in range(250 * scale):
         yield gen_property_kinds(rng)
+    for _ in range(220 * scale):
+        yield gen_multi(rng)
+    for _ in range(160 * scale):
+        yield gen_args(rng)
     for _ in range(200 * scale):
         yield gen_twice(rng)
     for _ in range(12 * scale):
@@ -1826,6 +2097,25 @@ def _size_tags(tags, votes, thr):
         tags.append('two_zero_vote')
 
 
+def _multi_tags(tags, votes, thr):
+    k = sum(1 for v in votes.values() if v == thr) if thr is not None else 0
+    if k >= 2:
+        tags.append('multi_on_threshold')
+    if k >= 3:
+        tags.append('three_on_threshold')
+
+
+def _level_tags(tags, votes, n, what):
+    """four or more candidates level at the cut contesting three or more places"""
+    if 0 < n < len(votes):
+        tau = sorted(votes.values(), reverse=True)[n - 1]
+        level = sum(1 for v in votes.values() if v == tau)
+        above = sum(1 for v in votes.values() if v > tau)
+        if above + level > n and level >= 4 and n - above >= 3:
+            tags.append('level4_places3')
+            tags.append('level4_places3:' + what)
+
+
 def _sens(tags, case, spec, param, default, key=None):
     """tag sens:<param> when the non-default value of a constructor parameter changes what the property determines"""
     key = key or param
@@ -1852,6 +2142,13 @@ def _posthoc_tags(c):
         if hit:
             tags.append('on_threshold_eq' if eq else 'on_threshold_noeq')
 
+    if c.get('_after'):
+        tags.append('result_kept_after_next_call')
+    if c.get('_no_prev_kwarg'):
+        tags.append('alt_default_prev_gains')
+    if c.get('n') == 0 and op in ('openlist', 'tiebreak', 'quota_selector'):
+        tags.append('zero_seats')
+        tags.append('zero_seats:' + op)
     if c.get('_warm'):
         tags.append('called_twice')
     if c.get('_warm_cfg'):
@@ -1866,6 +2163,10 @@ def _posthoc_tags(c):
         if op == 'abs_threshold':
             hit = any(v == t for v in votes.values())
             on_tag(hit, c['accept_equal'])
+            _multi_tags(tags, votes, t)
+            tags.append(f"thr:{c.get('_ttype', 'F')}:{'eq' if c['accept_equal'] else 'noeq'}")
+            if not (0 <= t):
+                tags.append('threshold_out_of_range')
             _num_tags(tags, c['threshold'], c.get('_ttype', 'F'), 'threshold', hit)
             _size_tags(tags, votes, t)
             if hit and not c['accept_equal']:
@@ -1874,6 +2175,10 @@ def _posthoc_tags(c):
             tot = sum(votes.values())
             hit = tot != 0 and any(v / tot == t for v in votes.values())
             on_tag(hit, c['accept_equal'])
+            _multi_tags(tags, votes, t * tot)
+            tags.append(f"thr:{c.get('_ttype', 'F')}:{'eq' if c['accept_equal'] else 'noeq'}")
+            if not (0 <= t <= 1):
+                tags.append('threshold_out_of_range')
             _num_tags(tags, c['threshold'], c.get('_ttype', 'F'), 'threshold', hit)
             _size_tags(tags, votes, t * tot)
             if hit and not c['accept_equal']:
@@ -1888,6 +2193,8 @@ def _posthoc_tags(c):
         kinds = sel_kinds(c['sel'])
         if 'prev' in kinds and any(i not in votes for i in prev):
             tags.append('prev_absent')
+        if c['sel']['k'] == 'prev' and not votes and prev:
+            tags.append('prev_with_empty_votes')
         if sum(1 for v in votes.values() if v == 0) >= 2:
             tags.append('two_zero_vote')
         if c.get('_prop_name') == 'region':
@@ -1958,10 +2265,16 @@ def _posthoc_tags(c):
         q = quota_value(c['quota'], sum(votes.values()), c['n'])
         on_tag(any(v == q for v in votes.values()), c['accept_equal'])
         tags.append('quota_by_callable' if c.get('_quota_mode') == 'callable' else 'quota_by_name')
+        _multi_tags(tags, votes, q)
+        if c['on_more'] == 'select':
+            _level_tags(tags, {x: v for x, v in votes.items() if passes(v, q, c['accept_equal'])}, c['n'], 'quota_selector')
         _size_tags(tags, votes, q)
         _sens(tags, c, spec_quota_selector, 'qs_quota_function', 'droop', 'quota')
         _sens(tags, c, spec_quota_selector, 'qs_accept_equal', True, 'accept_equal')
         _sens(tags, c, spec_quota_selector, 'qs_on_more_over_quota', 'error', 'on_more')
+    elif op == 'openlist' and c['n'] == 0:
+        if c.get('quota') in ('hare', 'hare_rounded'):
+            tags.append('zero_seats_quota_divides_by_seats')
     elif op == 'openlist':
         votes = fvotes(c['votes'])
         thr = open_threshold(c, sum(votes.values()))
@@ -1984,6 +2297,15 @@ def _posthoc_tags(c):
         if c['n'] > len(c['list']):
             tags.append('more_seats_than_list')
         hit = thr is not None and any(v == thr for v in votes.values())
+        _multi_tags(tags, votes, thr)
+        if c['n'] == len(c['list']):
+            tags.append('n_equals_list')
+        if c.get('jump_fraction') is not None:
+            tags.append(f"jf:{c.get('_jftype', 'F')}:{'eq' if c['accept_equal'] else 'noeq'}")
+            if not (0 <= Fraction(c['jump_fraction']) <= 1):
+                tags.append('threshold_out_of_range')
+        if c.get('quota') is not None and not (0 <= Fraction(c['quota_fraction']) <= 2):
+            tags.append('threshold_out_of_range')
         if thr is None:
             tags.append('openlist_no_threshold')
         else:
@@ -2038,7 +2360,8 @@ def _posthoc_tags(c):
         if c['inner'] != 'plurality':
             q = quota_value(c['inner'], sum(votes.values()), c['n'])
             votes = {x: v for x, v in votes.items() if passes(v, q, c['accept_equal'])}
-        if len(votes) > c['n']:
+        _level_tags(tags, votes, c['n'], 'tiebreak')
+        if len(votes) > c['n'] > 0:
             tau = sorted(votes.values(), reverse=True)[c['n'] - 1]
             level = sum(1 for v in votes.values() if v == tau)
             above = sum(1 for v in votes.values() if v > tau)
@@ -2052,6 +2375,11 @@ def _posthoc_tags(c):
         for x in c['elected']:
             if isinstance(x, dict) and len(x['tie']) >= 3 and sum(1 for y in c['elected'] if y == x) >= 2:
                 tags.append('tie3_draw2')
+                break
+        for x in c['elected']:
+            if isinstance(x, dict) and len(x['tie']) >= 4 and sum(1 for y in c['elected'] if y == x) >= 3:
+                tags.append('level4_places3')
+                tags.append('level4_places3:break_by_list')
                 break
     elif op == 'alt_ranks':
         pass
@@ -2086,7 +2414,7 @@ NOT_VERIFIED = ['dict insertion order is the protocol order (CPython dict semant
                 'CoalitionMemberBracketer: iteration order of the frozenset of member counts (only decides which of two '
                 'different exceptions is raised first) — modelled ascending',
                 'accepts_prev_gains / accepts_seats (inspect.signature) are modelled by the class of the selector',
-                'ThresholdOpenList with n_seats = 0 (the quota functions divide by zero) is outside the modelled domain',
+                'n_seats = 0: modelled (thresholdOpenListAt: ZeroDivisionError of hare / hare_rounded, else nobody seated); QuotaSelector with n_seats = 0 is generated only with quota functions that do not divide by the seat count',
                 'hasattr/getattr access to candidate properties is modelled as a function candidate -> optional value']
 AUDIT = ('Generator audit against harness/GENERATOR_CHECKLIST.md: thresholds / jump_fraction / quota_fraction as int, Fraction '
          '(denominators > 10^6), Decimal (7+ decimals), float (dyadic and not; float jump/quota fractions only where the float '
